@@ -12,7 +12,7 @@ PROP = {
              {"tag": "c05gen", "bin": "c05", "num": 105, "mismatch_is_failing": False},
              # std's provided iterator methods (find, position, any, all, skip_while, filter, max, min_by_key, rev().find,
              # step_by, for_each(drop)) on the by-value iterator while one destructor panics: direct oracles
-             {"tag": "c05provided", "bin": "c05", "args": ["--provided"], "model": False},
+             {"tag": "c05provided", "bin": "c05", "args": ["--provided"], "model": False, "failing_oracle": r"released twice|handed out and released"},
              # serde: the elements already read are torn down inside deserialize (too short / too long / faulty input
              # from an unhinted source) while one destructor panics: nothing is released twice (direct oracle)
              {"tag": "c05serde", "bin": "c17", "args": ["--bomb"], "model": False}],
